@@ -12,6 +12,13 @@ import RisorModel.C03.Model
 * `enter <run|call|thread> <ops:<op*count,…> | panic | return>` → `value` | `error <why>` |
   `killed <why>`: outcome for the process of a body run under that entry (Impl: all three
   recover scopes present); `ops:` bodies run on a fresh VM (`Vm.init`)
+* `nest <run|call|thread> <limit> <op,op,…*count;…>` (ops: callOp callback hostCall importMod
+  deferred = enter through that re-entry, leave, exitDefers, defersDone; each `;`-separated
+  group is repeated `count` times) → `value` | `error <why>` | `killed <why>`, then `peak=<n>`
+  (the guard `peakOpen` of the sequence): `nestRun limit` from `Nest.init` under that entry
+* `importseq <name:state,…>` (state m = no file, b = a file that does not compile, g = a file
+  that compiles) → `ok <M|Enf|Ebad,…>` | `fatal <call index> <why>` | `blocked <call index>`:
+  `importSeq implPaths` on a fresh importer
 * `inspect <heap> <value>` → `ok <hex of the rendering>` | `nofuel`
 * `equals <heap> <a> <b>` → `t|f|overflow` then `ranked=<bool>` -/
 namespace Risor.C03
@@ -104,7 +111,65 @@ def parseVmOps (s : String) : Option (List VmOp) :=
       | none => none
     | _ => none).map List.flatten
 
+def parseNOp (s : String) : Option NOp :=
+  match s with
+  | "callOp" => some (.enter .callOp)
+  | "callback" => some (.enter .callback)
+  | "hostCall" => some (.enter .hostCall)
+  | "importMod" => some (.enter .importMod)
+  | "deferred" => some (.enter .deferred)
+  | "leave" => some .leave
+  | "exitDefers" => some .exitDefers
+  | "defersDone" => some .defersDone
+  | _ => none
+
+def parseNestOps (s : String) : Option (List NOp) :=
+  ((s.splitOn ";").mapM fun (seg : String) =>
+    match seg.splitOn "*" with
+    | [ops, n] =>
+      match n.toNat?, (ops.splitOn ",").mapM parseNOp with
+      | some k, some l => some (List.replicate k l).flatten
+      | _, _ => none
+    | _ => none).map List.flatten
+
+def parseEntry (entry : String) : Option Entry :=
+  match entry with
+  | "run" => some .run
+  | "call" => some .call
+  | "thread" => some .thread
+  | _ => none
+
+def parseImportSteps (s : String) : Option (List (String × FileSt)) :=
+  if s = "-" then some [] else
+  (s.splitOn ",").mapM fun (st : String) =>
+    match st.splitOn ":" with
+    | [n, "m"] => some (n, FileSt.missing)
+    | [n, "b"] => some (n, FileSt.bad)
+    | [n, "g"] => some (n, FileSt.good)
+    | _ => none
+
+def showImpRes : ImpRes → String
+  | .module => "M"
+  | .error w => if w.startsWith "import error" then "Enf" else "Ebad"
+
 def handle : List String → String
+  | ["nest", entry, limit, ops] =>
+    match parseEntry entry, limit.toNat?, parseNestOps ops with
+    | some e, some lim, some l =>
+      let pk := "\tpeak=" ++ toString (peakOpen 0 l)
+      match enterNest requiredRecovers e (nestRun lim Nest.init l) with
+      | .value => "value" ++ pk
+      | .error w => "error\t" ++ w ++ pk
+      | .killed w => "killed\t" ++ w ++ pk
+    | _, _, _ => "error?\tbad-nest"
+  | ["importseq", steps] =>
+    match parseImportSteps steps with
+    | none => "error?\tbad-steps"
+    | some l =>
+      match importSeq implPaths Imp.init l with
+      | .ok rs _ => "ok\t" ++ (if rs.isEmpty then "-" else ",".intercalate (rs.map showImpRes))
+      | .fatal k w => "fatal\t" ++ toString k ++ "\t" ++ w
+      | .blocked k => "blocked\t" ++ toString k
   | ["toks", runes, specs] =>
     match parseNats runes with
     | none => "error\tbad-runes"
